@@ -1,5 +1,6 @@
 import Typegen.ProjectSpec
 import Typegen.TablesExpected
+import Typegen.Discovery
 /-! # C07 — types.ts declares exactly the serde types reachable from the public surface
 
 `Gn.usedNames` mirrors `TypeCollector::collect_used_types` + `add_event_types`: seeds are the custom
@@ -373,5 +374,21 @@ theorem C07_declared_iff (a : Analysis) (n : Str) :
   · intro ⟨hr, hd⟩; exact C07_reachable_declared a n hr hd
 
 
+
+
+/-! ## completeness of the *analysis'* type discovery -/
+
+/-- **C07 at analysis level**: every name harvested from the public surface (parameter, return, channel and event payload
+    types) or from a field of an already discovered type, for which the selected files hold a definition the extractor
+    accepts, is discovered: the lazy resolution is a fixed point, with the fuel the model uses.  (What remains tied by
+    the oracle only: that *harvesting* a type string yields its identifiers — proved for well-formed comma-safe strings
+    in Appendix F / `L.H1`, false on the K07b class — and that the derive test is the token-aware one, K07c.) -/
+theorem C07_discovery_closed (p : Pj.Project) : DS.ClosedR (DS.aFiles p) (DS.aSeeds p) (DS.aResolved p) :=
+  DS.C07_discovery_closed p
+
+/-- the discovered structs of the analysis are exactly the resolved list (sorted) -/
+theorem C07_structs_are_resolved (p : Pj.Project) :
+    (An.analyze p).structs = (An.sortBy (fun (d : An.SInfo × List Str) => d.1.name) (DS.aResolved p)).map (·.1) :=
+  DS.structs_of_resolved p
 
 end TG.C07
